@@ -625,6 +625,9 @@ func genCfg(r *rng.R, dev uint32) cfgGen {
 	if r.Chance(2, 3) && dev != 0 {
 		add(dev)
 	}
+	if dev == 0 && r.Bool() {
+		add(0) // a placeholder entry with id 0 in the configuration must not make id 0 acceptable
+	}
 	if r.Chance(1, 4) {
 		add(dev + 10 + uint32(r.Intn(5)))
 	}
